@@ -156,7 +156,7 @@ class Run:
 
     def add_selftest(self, name, status, detail=''):
         self.selftest.append({'variant': name, 'status': status})
-        if status not in ('DETECTED', 'BENIGN-OK'):
+        if status not in ('DETECTED', 'BENIGN-OK', 'BENIGN-NOVERDICT'):
             self.infra.append('self-test: seeded variant %s was %s %s' % (name, status, detail[-300:]))
             print('SELFTEST-FAILED %s: %s' % (name, status))
 
